@@ -324,6 +324,10 @@ def run(ctx):
                     r = L.recv_of(_wd, t[2])
                     if not r or "compressed_object_map" not in r[1]:
                         return None
+                    # the map is filled by flush_object_streams: only a test made *after* the flush sees it non-empty
+                    # (the flush itself is conditional on use_object_streams, so "after" = no flush can still follow the test)
+                    if any(fb in g.reachable_from(b) for fb in flush) or not any(b in g.reachable_from(fb) for fb in flush):
+                        return None
                     return False if (c.get("p") or "").endswith("is_empty") else "nz"
                 if not (set(calls) & CF.reachable_assuming(wd, assume)):
                     guarded = True
